@@ -27,7 +27,8 @@ BOUNDS_TEXT = ("kernel: every n with 0 <= n < 2**kbits; single integers |n| <= 2
                "(int, string, flat list, nested lists of depth 2, tuples, empty lists) with integer leaves "
                "|i| < 2**sbits and string leaves of <= str symbolic bytes (all 256 values); dialects 'none' and "
                "'pb' (vocabulary words as leaves); every split index of the encoded stream (two deliveries); "
-               "SIZE_LIMIT scaled to 3: strings/lists of length 0..5 on encode, announced lengths 0..6 on decode; "
+               "SIZE_LIMIT scaled to 3: strings/lists of length 0..5 on encode, announced lengths 0..6 on decode with the "
+               "complete payload present, top-level and nested in a list, at every split index incl. one segment; "
                "prefix limit scaled to 3: prefixes of 0..5 symbolic bytes < 0x80")
 OUTSIDE = ["floats (struct '!d' packing/unpacking is C code; FLOAT type byte not exercised)",
            "structures deeper than 2 or with more than 3 elements per list, strings longer than 3 bytes",
@@ -392,22 +393,26 @@ def dec_prefix(p: str, tb: int, split: int) -> bool:
     return len(rec) == 1 and rec[0] == sign * val and t(bn.buffer) == ""
 
 
-def dec_size(n: int, lst: bool, pad: bool, fill: str, split: int) -> bool:
+def dec_size(n: int, lst: bool, pad: bool, nest: bool, fill: str, split: int) -> bool:
     """
     pre: 0 <= n <= 6
-    pre: len(fill) == 3 and all(ord(c) < 256 for c in fill)
+    pre: len(fill) == 6 and all(ord(c) < 256 for c in fill)
     pre: 0 <= split
     post: _
     """
     # SIZE_LIMIT 3: an announced string / list length above it is refused before anything is buffered
-    # or delivered; lengths within the limit are honoured (also with a non-canonical zero-padded prefix)
+    # or delivered - also when the COMPLETE oversized payload arrives in the same segment as its header
+    # (split index 0 / len(stream)), top-level or nested in a list: every segmentation gives the same
+    # verdict.  Lengths within the limit are honoured (also with a non-canonical zero-padded prefix).
     k = _split_cases(6, n)
     prefix = chr(k) + ("\0" if pad else "")
     bn, rec = _mk()
     if lst:
-        stream = prefix + T_LIST + ("\x01" + T_INT) * min(k, 3)
+        stream = prefix + T_LIST + ("\x01" + T_INT) * k
     else:
-        stream = prefix + T_STRING + fill[:min(k, 3)]
+        stream = prefix + T_STRING + fill[:k]
+    if nest:
+        stream = "\x01" + T_LIST + stream
     sp = _split_cases(len(stream), split)
     err = _deliver(bn, stream, sp)
     got = [_norm(x) for x in rec]
@@ -417,8 +422,12 @@ def dec_size(n: int, lst: bool, pad: bool, fill: str, split: int) -> bool:
     if err is not None:
         return False
     if lst:
-        return got == [[1] * k] and bn.listStack == []
-    return got == [("B", fill[:k])] and t(bn.buffer) == ""
+        want = [1] * k
+    else:
+        want = ("B", fill[:k])
+    if nest:
+        want = [want]
+    return got == [want] and bn.listStack == [] and t(bn.buffer) == ""
 
 
 def _structure_shards(tier):
@@ -470,9 +479,10 @@ VECTORS = {
                    (2, 4, "\x80\x81\x82\x83\x84", 1), (3, 5, "abcde", 100), (3, 0, "abcde", 2), (2, 0, "abcde", 2)],
     "dec_prefix": [("", 1, 0), ("\x01", 0, 0), ("\x01\x02\x03", 2, 2), ("\x01\x02\x03\x04", 0, 1),
                    ("\x01\x02\x03\x04", 3, 4), ("\x7f\x7f\x7f\x7f\x7f", 4, 0), ("\x00\x00\x00", 1, 3)],
-    "dec_size": [(0, True, False, "abc", 0), (3, True, True, "abc", 4), (4, True, False, "abc", 1),
-                 (3, False, False, "\x80\x81\x82", 2), (4, False, True, "abc", 0), (6, False, False, "abc", 3),
-                 (2, False, True, "abc", 5), (0, False, False, "abc", 1)],
+    "dec_size": [(0, True, False, False, "abcdef", 0), (3, True, True, True, "abcdef", 4), (4, True, False, False, "abcdef", 1),
+                 (3, False, False, False, "\x80\x81\x82\x83\x84\x85", 2), (4, False, True, False, "abcdef", 0),
+                 (6, False, False, True, "abcdef", 3), (2, False, True, True, "abcdef", 5), (0, False, False, False, "abcdef", 1),
+                 (4, False, False, False, "abcdef", 99), (5, False, False, True, "abcdef", 0), (6, False, True, False, "abcdef", 9)],
 }
 
 
